@@ -723,3 +723,13 @@ func AcceptingReturns(fn *ssa.Function) map[*ssa.Return]bool {
 	}
 	return out
 }
+
+// FactValuesAt returns the SSA values (stripped conditions / nil-tested
+// operands) of the branch facts that hold on every path to the block.
+func (a *FnAnalysis) FactValuesAt(b *ssa.BasicBlock) []ssa.Value {
+	var out []ssa.Value
+	for k := range a.mustIn[b] {
+		out = append(out, k.v)
+	}
+	return out
+}
